@@ -19,6 +19,7 @@ import (
 	"fmt"
 	"os"
 	"path/filepath"
+	"runtime"
 	"sort"
 	"strings"
 	"sync"
@@ -403,13 +404,13 @@ func TestVerifC04Damage(t *testing.T) {
 	}
 	quick := verifh.Quick()
 	var (
-		infra           atomic.Value
-		nrun, nfail     atomic.Int64
-		nopenfail       atomic.Int64
-		mu              sync.Mutex
-		classes         = map[string]int{}
-		layoutDrift     atomic.Int64
-		noChange        atomic.Int64
+		infra       atomic.Value
+		nrun        atomic.Int64
+		nopenfail   atomic.Int64
+		mu          sync.Mutex
+		classes     = map[string]int{}
+		layoutDrift atomic.Int64
+		noChange    atomic.Int64
 	)
 	for bi, b := range behs {
 		if infra.Load() != nil || verifh.Violations() >= 20 {
@@ -448,7 +449,6 @@ func TestVerifC04Damage(t *testing.T) {
 			verifh.Infra("close: " + err.Error())
 			t.Fatal(err)
 		}
-		baseTree := c04TreeMap(base)
 		// ---- enumerate the damages
 		var all []c04Damage
 		logFile := func(file, dir string, mf *c04File) {
@@ -521,63 +521,17 @@ func TestVerifC04Damage(t *testing.T) {
 						return
 					}
 					d := all[di]
-					work := filepath.Join(root, fmt.Sprintf("c04-%d-w%d", bi, wk))
-					os.RemoveAll(work)
-					if err := dbCopyTree(base, work); err != nil {
-						infra.Store(err.Error())
-						return
-					}
-					changed, err := c04Apply(filepath.Join(work, d.path), d)
-					if err != nil {
-						infra.Store(err.Error())
-						return
-					}
-					if !changed {
-						noChange.Add(1)
-						continue
-					}
-					var pred c04Pred
-					switch d.file {
-					case "wal":
-						pred = dm.Wal.Cut[d.cutK-1]
-					case "wbl":
-						pred = dm.Wbl.Cut[d.cutK-1]
-					case "cp":
-						pred = dm.Cp.Cut[d.cutK-1]
-					default:
-						pred = *dm.Hc
-					}
-					what := fmt.Sprintf("behaviour %d [%s] damage %s", bi, conc, d)
-					damagedTree := c04TreeMap(work)
-					openFailed := false
-					sig, msg, got := c03JudgeDir(w, seed, work, len(w)-1, what, pred.Must, []map[string][]dbExp{pred.May}, func(oerr error) (string, string) {
-						// a failing Open is allowed if it leaves every undamaged file as it was
-						openFailed = true
-						after := c04TreeMap(work)
-						if diff := c04TreeDiffUndamaged(damagedTree, after, d.path); diff != "" {
-							return "failed-open-changed-undamaged-data:" + d.file, fmt.Sprintf("%s: Open failed (%v) and removed or altered undamaged data: %s", what, oerr, diff)
-						}
-						return "", ""
-					})
-					if sig == "deleted-sample-replayed-from-wal" {
-						sig = "phantom-sample" // KF-C03-3 needs a dropped block; the damage tables already allow deleted samples (may = ever written)
-					}
-					nrun.Add(1)
-					mu.Lock()
-					cls := d.file + "/" + d.region + "/" + d.kind
-					if openFailed {
-						cls += "/openfail"
-						nopenfail.Add(1)
-					}
-					classes[cls]++
-					mu.Unlock()
-					if sig != "" {
-						nfail.Add(1)
-						c03Report(d.file+":", sig, msg, map[string]any{"workload": w, "damage": d.String(), "seed": seed, "must": pred.Must})
-					} else if got != nil && !openFailed {
-						// the code's known behaviour (exp) or the property's reference (must) exactly, modulo head chunks: drift only
-						_ = baseTree
-					}
+					func() {
+						defer func() {
+							// a panic of the product code while opening / querying damaged data is behaviour of the code
+							if p := recover(); p != nil {
+								buf := make([]byte, 3000)
+								buf = buf[:runtime.Stack(buf, false)]
+								verifh.Violation(d.file+":panic", fmt.Sprintf("behaviour %d damage %s: panic: %v\n%s", bi, d, p, buf), map[string]any{"workload": w, "damage": d.String(), "seed": seed})
+							}
+						}()
+						c04One(bi, wk, d, root, base, w, seed, conc, dm, &nrun, &nopenfail, &noChange, &infra, &mu, classes)
+					}()
 				}
 			}(wk)
 		}
@@ -601,5 +555,70 @@ func TestVerifC04Damage(t *testing.T) {
 	verifh.Done(int(nrun.Load()))
 	if verifh.Violations() > 0 {
 		t.Fail()
+	}
+}
+
+// c04One damages one copy and judges it.
+func c04One(bi, wk int, d c04Damage, root, base string, w []c03Step, seed int64, conc dbConc, dm c04Step,
+	nrun, nopenfail, noChange *atomic.Int64, infra *atomic.Value, mu *sync.Mutex, classes map[string]int) {
+	{
+		{
+			{
+				work := filepath.Join(root, fmt.Sprintf("c04-%d-w%d", bi, wk))
+				os.RemoveAll(work)
+				if err := dbCopyTree(base, work); err != nil {
+					infra.Store(err.Error())
+					return
+				}
+				changed, err := c04Apply(filepath.Join(work, d.path), d)
+				if err != nil {
+					infra.Store(err.Error())
+					return
+				}
+				if !changed {
+					noChange.Add(1)
+					return
+				}
+				var pred c04Pred
+				switch d.file {
+				case "wal":
+					pred = dm.Wal.Cut[d.cutK-1]
+				case "wbl":
+					pred = dm.Wbl.Cut[d.cutK-1]
+				case "cp":
+					pred = dm.Cp.Cut[d.cutK-1]
+				default:
+					pred = *dm.Hc
+				}
+				what := fmt.Sprintf("behaviour %d [%s] damage %s", bi, conc, d)
+				damagedTree := c04TreeMap(work)
+				openFailed := false
+				sig, msg, got := c03JudgeDirX(w, seed, work, len(w)-1, what, pred.Must, []map[string][]dbExp{pred.May}, func(oerr error) (string, string) {
+					// a failing Open is allowed if it leaves every undamaged file as it was
+					openFailed = true
+					after := c04TreeMap(work)
+					if diff := c04TreeDiffUndamaged(damagedTree, after, d.path); diff != "" {
+						return "failed-open-changed-undamaged-data:" + d.file, fmt.Sprintf("%s: Open failed (%v) and removed or altered undamaged data: %s", what, oerr, diff)
+					}
+					return "", ""
+				}, true)
+				if sig == "deleted-sample-replayed-from-wal" {
+					sig = "phantom-sample" // KF-C03-3 needs a dropped block; the damage tables already allow deleted samples (may = ever written)
+				}
+				nrun.Add(1)
+				mu.Lock()
+				cls := d.file + "/" + d.region + "/" + d.kind
+				if openFailed {
+					cls += "/openfail"
+					nopenfail.Add(1)
+				}
+				classes[cls]++
+				mu.Unlock()
+				if sig != "" {
+					c03Report(d.file+":", sig, msg, map[string]any{"workload": w, "damage": d.String(), "seed": seed, "must": pred.Must})
+				}
+				_ = got
+			}
+		}
 	}
 }
